@@ -387,4 +387,28 @@ def s8(ctx):
                           'FanoutCache.%s(%s=%s) but Cache.%s(%s=%s): the same call behaves differently on a sharded '
                           'cache' % (name, p, ast.unparse(df) if df is not None else '<required>', name, p,
                                      ast.unparse(dg) if dg is not None else '<required>'), f.loc()))
+    # the Django adapter: same defaults as the FanoutCache method of the same name (its write methods wait for the
+    # lock by design - R3 - and timeout/version are its own parameters)
+    dc = ctx.prog.classes.get('DjangoCache')
+    if dc is not None:
+        for name, f in sorted(dc.methods.items()):
+            g = fc.methods.get(name)
+            if g is None or f.is_property or name.startswith('_') or f is g:
+                continue
+            for p in f.params:
+                if p not in g.params or p in ('retry', 'timeout', 'version', 'expire'):
+                    continue
+                if name in ('incr', 'decr') and p == 'default':
+                    continue        # Django's incr/decr raise ValueError for a missing key: default=None by contract
+                df, dg = f.defaults.get(p), g.defaults.get(p)
+                same = (df is None and dg is None) or (df is not None and dg is not None and ast.dump(df) == ast.dump(dg))
+                if not same and df is not None and dg is not None:
+                    try:
+                        same = ctx.fold(df, f.module) == ctx.fold(dg, g.module)
+                    except ValueError:
+                        same = False
+                obs.append(Ob('S8', 'DjangoCache.%s/%s' % (name, p), same,
+                              'DjangoCache.%s(%s=%s) but FanoutCache.%s(%s=%s)' % (
+                                  name, p, ast.unparse(df) if df is not None else '<required>', name, p,
+                                  ast.unparse(dg) if dg is not None else '<required>'), f.loc()))
     return obs
